@@ -44,15 +44,15 @@ type Limits struct {
 var DefaultLimits = Limits{NameMax: 112, MaxFileSize: (8 + 512*512) * 4096, WtMax: 4096 * 511}
 
 type FS struct {
-	Objs   map[int]*Obj
-	Root   int
-	Next   int
-	ByFH   map[string]int  // live handles
-	Seen   map[string]bool // every handle ever issued
-	Lim    Limits
+	Objs map[int]*Obj
+	Root int
+	Next int
+	ByFH map[string]int  // live handles
+	Seen map[string]bool // every handle ever issued
+	Lim  Limits
 	// options
-	StrictStale   bool // dead handle must give STALE/BADHANDLE (C08); otherwise any error
-	AllowImplFail bool // NOSPC / SERVERFAULT / IO are accepted as implementation-only failures (no change)
+	StrictStale       bool // dead handle must give STALE/BADHANDLE (C08); otherwise any error
+	AllowImplFail     bool // NOSPC / SERVERFAULT / IO are accepted as implementation-only failures (no change)
 	CheckFsinfoHandle bool
 }
 
@@ -177,7 +177,9 @@ type Mismatch struct {
 
 func (m *Mismatch) Error() string { return m.Rule + ": " + m.Msg }
 
-func mm(rule, f string, a ...interface{}) *Mismatch { return &Mismatch{Rule: rule, Msg: fmt.Sprintf(f, a...)} }
+func mm(rule, f string, a ...interface{}) *Mismatch {
+	return &Mismatch{Rule: rule, Msg: fmt.Sprintf(f, a...)}
+}
 
 func (fs *FS) checkAttr(o *Obj, a *fsx.Attr, what string) *Mismatch {
 	if a == nil {
@@ -213,7 +215,9 @@ func (fs *FS) mustFail(r *fsx.Reply, rule string, stale bool) *Mismatch {
 }
 
 func nameIllegal(n string) bool { return n == "." || n == ".." }
-func nameOdd(n string) bool     { return n == "" || strings.Contains(n, "/") || strings.Contains(n, "\x00") }
+func nameOdd(n string) bool {
+	return n == "" || strings.Contains(n, "/") || strings.Contains(n, "\x00")
+}
 
 func (fs *FS) kill(o *Obj) {
 	delete(fs.ByFH, o.FH)
@@ -653,7 +657,7 @@ func (fs *FS) Dump(p *fsx.Probe) map[string]fsx.Node {
 	out := map[string]fsx.Node{}
 	var walk func(path string, o *Obj)
 	walk = func(path string, o *Obj) {
-		n := fsx.Node{Kind: o.Kind, Size: o.Size, FH: o.FH, Fileid: o.Fileid, Target: o.Target, Mtime: o.Mtime}
+		n := fsx.Node{Kind: o.Kind, Size: o.Size, FH: o.FH, Fileid: o.Fileid, Target: o.Target, Mtime: o.Mtime, Atime: o.Atime}
 		if o.Kind == DIR {
 			n.Size = 0
 		}
@@ -714,6 +718,8 @@ func DiffDumps(impl, model map[string]fsx.Node, withHandles bool) string {
 			return fmt.Sprintf("%s fileid %d, reference %d", disp, a.Fileid, b.Fileid)
 		case b.Mtime != 0 && a.Mtime != b.Mtime:
 			return fmt.Sprintf("%s mtime %d, reference %d", disp, a.Mtime, b.Mtime)
+		case b.Atime != 0 && a.Atime != b.Atime:
+			return fmt.Sprintf("%s atime %d, reference %d", disp, a.Atime, b.Atime)
 		}
 	}
 	return ""
